@@ -67,6 +67,9 @@ def run(ctx):
     h1(ctx, R)
     h2(ctx, R)
     h3(ctx, R)
+    # every way into the token loop passes the reset: parse_file hands its bytes to parse() and returns its verdict (X12 of C02)
+    from .c02 import x12
+    x12(ctx, R)
 
     # ---- H4 ----------------------------------------------------------------------
     ctx.rule("H4", "factory isolation: no call from factory.py can read the registry")
